@@ -931,6 +931,13 @@ func (o *ovsdbClient) monitor(ctx context.Context, cookie MonitorCookie, reconne
 		o.rpcMutex.RLock()
 		defer o.rpcMutex.RUnlock()
 	}
+	return o.monitorLocked(ctx, cookie, reconnecting, monitor)
+}
+
+// monitorLocked is monitor with the rpcMutex already held: the fall-back to
+// an older monitor method must not take the read lock a second time, which
+// deadlocks as soon as a writer is queued in between
+func (o *ovsdbClient) monitorLocked(ctx context.Context, cookie MonitorCookie, reconnecting bool, monitor *Monitor) error {
 	if o.rpcClient == nil {
 		return ErrNotConnected
 	}
@@ -1046,12 +1053,12 @@ func (o *ovsdbClient) monitor(ctx context.Context, cookie MonitorCookie, reconne
 			if monitor.Method == ovsdb.ConditionalMonitorSinceRPC {
 				o.logger.V(3).Error(err, "method monitor_cond_since not supported, falling back to monitor_cond")
 				monitor.Method = ovsdb.ConditionalMonitorRPC
-				return o.monitor(ctx, cookie, reconnecting, monitor)
+				return o.monitorLocked(ctx, cookie, reconnecting, monitor)
 			}
 			if monitor.Method == ovsdb.ConditionalMonitorRPC {
 				o.logger.V(3).Error(err, "method monitor_cond not supported, falling back to monitor")
 				monitor.Method = ovsdb.MonitorRPC
-				return o.monitor(ctx, cookie, reconnecting, monitor)
+				return o.monitorLocked(ctx, cookie, reconnecting, monitor)
 			}
 		}
 		return err
